@@ -62,12 +62,15 @@ def validate_time_x(x, times=None, n_features=None, cast_scalar=False):
     """
 
     x = validate_array(x, "x", ndim=2)
+    if cast_scalar and times is not None and not isscalar(times):
+        # array-likes such as lists have no shape yet
+        times = validate_array(times, "times")
     if (
         cast_scalar
         and times is not None
         and (isscalar(times) or all(s == 1 for s in times.shape))
     ):
-        times = full(x.shape[0], times)
+        times = full(x.shape[0], squeeze(times))
     times = validate_array(times, "times", optional=True, ndim=(1, 2))
 
     if times is not None:
